@@ -384,6 +384,7 @@ def c13_conditions(tier):
 
 BOUNDS = ["structural family: line widths 1-3 (quick) / 1-5 (thorough), LF/CRLF, final newline present/absent, description yes/no, 1-3 records, "
           "varying record = up to 3 alternating runs of 0..2 (quick) / 0..3 (thorough) residues",
+          "one unwrapped record with a single sequence line of 8191/8192/8193/20001 residues followed by a short record",
           "buffer size: every integer >= 1 (symbolic, unbounded)"]
 OUTSIDE = ["files outside the structural family (longer records, more runs, other symbols than those enumerated, non-uniform line widths, empty records)",
            "the byte content is concrete per path: effects of particular residues other than 'is ACGT-class or not' are covered only for the enumerated symbols"]
